@@ -198,8 +198,9 @@ type memListener struct {
 
 func newMemListener() *memListener { l := &memListener{}; l.cond = sync.NewCond(&l.mu); return l }
 
-func (l *memListener) dial() (cli, srv *endpoint) {
+func (l *memListener) dial(port int) (cli, srv *endpoint) {
 	cli, srv = newPipe()
+	cli.local, srv.rem = memAddr(port), memAddr(port)
 	l.mu.Lock()
 	l.q = append(l.q, srv)
 	l.cond.Broadcast()
